@@ -13,7 +13,7 @@ use std::sync::atomic::{AtomicBool, AtomicUsize, Ordering};
 
 const ARENA_SIZE: usize = 256 << 20;
 const MAX_LOG: usize = 4096;
-const HEAD: usize = 48;
+const HEAD: usize = 96;
 
 #[derive(Clone, Copy)]
 struct Rec {
@@ -188,6 +188,27 @@ fn drop_probe_boxed<T>(v: T, use_it: impl FnOnce(&T)) -> Out {
     vec![hex(&before), hex(&after)]
 }
 
+/// one of two iterator types, forwarding the size hint of whichever it holds
+enum Either<A, B> {
+    A(A),
+    B(B),
+}
+impl<T, A: Iterator<Item = T>, B: Iterator<Item = T>> Iterator for Either<A, B> {
+    type Item = T;
+    fn next(&mut self) -> Option<T> {
+        match self {
+            Either::A(a) => a.next(),
+            Either::B(b) => b.next(),
+        }
+    }
+    fn size_hint(&self) -> (usize, Option<usize>) {
+        match self {
+            Either::A(a) => a.size_hint(),
+            Either::B(b) => b.size_hint(),
+        }
+    }
+}
+
 pub fn register(m: &mut HashMap<&'static str, OpFn>) {
     // mem.msm kind [scalars] [points]   kind: 0 = Edwards ct multiscalar, 1 = Ristretto ct multiscalar
     m.insert("mem.msm", |a| {
@@ -220,13 +241,22 @@ pub fn register(m: &mut HashMap<&'static str, OpFn>) {
         let kind = a.int(0);
         let scalars = a.sc_list(1);
         let (which, at) = (a.int(3), a.int(4) as usize);
+        // which = 2: nothing fails, but the scalar iterator's size hint is inexact (a filter adaptor: lower bound 0); the
+        // crate asserts exact hints, so the unchanged tree panics before recoding anything - whatever it does, what it frees
+        // must not depend on the secrets
         let sc_it = || {
-            scalars.iter().enumerate().map(move |(i, s)| {
+            let base = scalars.iter().enumerate().map(move |(i, s)| {
                 if which == 1 && i == at {
                     panic!("caller's scalar iterator failed");
                 }
                 s
-            })
+            });
+            // (no boxing here: a heap block holding iterator state would hold addresses, which differ between requests)
+            if which == 2 {
+                Either::B(base.filter(|_| true))
+            } else {
+                Either::A(base)
+            }
         };
         let (r, log) = match kind {
             0 => {
@@ -279,6 +309,50 @@ pub fn register(m: &mut HashMap<&'static str, OpFn>) {
         let points = a.ed_list(1);
         let (r, log) = measured(|| EdwardsPoint::vartime_multiscalar_mul(scalars.iter(), points.iter()));
         let mut o = vec![hex(r.compress().as_bytes())];
+        o.extend(log);
+        o
+    });
+    // mem.dropunwind <type> <secret bytes> <panic T/F>: the object lives in a Box owned by a frame that (optionally) panics;
+    // the unwinding (or the normal return) drops it and frees the box inside the measured region, so the dealloc log
+    // shows what the storage held when it went back to the allocator
+    m.insert("mem.dropunwind", |a| {
+        use ed25519_dalek::hazmat::ExpandedSecretKey;
+        use ed25519_dalek::SigningKey;
+        use std::panic::{catch_unwind, AssertUnwindSafe};
+        use x25519_dalek::{ReusableSecret, StaticSecret};
+        let ty = a.tok(0).to_string();
+        let sec = a.bytes(1);
+        let do_panic = a.boolean(2);
+        // the scripted RNG owns a copy of the secret bytes: it lives (and dies) outside the measured region
+        let mut rng = crate::ops_x::FixedRng(sec.clone(), 0);
+        let (r, log) = measured(|| {
+            catch_unwind(AssertUnwindSafe(|| {
+                macro_rules! hold {
+                    ($v:expr) => {{
+                        let b = Box::new($v);
+                        std::hint::black_box(&b);
+                        if do_panic {
+                            panic!("frame owning a secret fails");
+                        }
+                        drop(b);
+                    }};
+                }
+                match ty.as_str() {
+                    "signingkey" => hold!(SigningKey::from_bytes(&sec.as_slice().try_into().unwrap_or_else(|_| panic!("ARG: len")))),
+                    "expandedsecretkey" => {
+                        hold!(ExpandedSecretKey::from_bytes(&sec.as_slice().try_into().unwrap_or_else(|_| panic!("ARG: len"))))
+                    }
+                    "static" => {
+                        let s: [u8; 32] = sec.as_slice().try_into().unwrap_or_else(|_| panic!("ARG: len"));
+                        hold!(StaticSecret::from(s))
+                    }
+                    "reusable" => hold!(ReusableSecret::random_from_rng(&mut rng)),
+                    _ => panic!("ARG: type"),
+                }
+            }))
+            .is_err()
+        });
+        let mut o = vec![tb(r)];
         o.extend(log);
         o
     });
